@@ -1,7 +1,7 @@
 /* UNIT
 {
  "id": "QBE.delfunc.labels",
- "file": "qbe.c", "function": "delfunc",
+ "file": "qbe.c", "function": "delfunc", "also_functions": ["delgoto"],
  "properties": {"C10": "contract", "C03": "contract", "C19": "safety"},
  "mode": "harness",
  "unwind": 4,
